@@ -13,7 +13,7 @@ META = {
     "increment_genotype walker (a one-operation state machine: states = genotypes, transitions = increments) visits exactly "
     "that order; binomials on the full grid n<200,k<20 and in windows along the N<2^53 frontier for every k<=80; "
     "non-trivial = ploidy>=2 and H>=2",
-    "bound": {"quick": "P<=8, H<=12, N<=1e5; frontier windows of 40 n-values per k", "thorough": "P<=12, H<=40, N<=3e6; windows of 400"},
+    "bound": {"quick": "all (P<=14, H<=160) with N<=3e4 (covers ploidy >= 12 and > 128 alleles); frontier windows of 40 n-values per k", "thorough": "all (P<=16, H<=300) with N<=2e6; windows of 400"},
     "assumptions": ["reference: math.comb and itertools.combinations_with_replacement sorted by reversed tuple"],
     "trusted_base": ["python math.comb"],
 }
@@ -36,7 +36,7 @@ def warm(tier):
 
 
 def plan(tier, seed):
-    maxP, maxH, maxN = (8, 12, 10 ** 5) if tier == "quick" else (12, 40, 3 * 10 ** 6)
+    maxP, maxH, maxN = (14, 160, 3 * 10 ** 4) if tier == "quick" else (16, 300, 2 * 10 ** 6)
     jobs = []
     for P in range(1, maxP + 1):
         for H in range(1, maxH + 1):
